@@ -960,9 +960,8 @@ func (s *state) addIndexes(src schema.Change, t *schema.Table, adds ...*schema.A
 				// Therefore, we print indexes with their qualified name, because
 				// the connection that executes the statements may not be attached
 				// to this schema.
-				if t.Schema != nil {
-					b.WriteString(s.schemaPrefix(t.Schema))
-				}
+				// (A requested qualifier applies also to a table that is not attached to a schema.)
+				b.WriteString(s.schemaPrefix(t.Schema))
 				b.Ident(idx.Name)
 				return b.String()
 			}(),
